@@ -124,7 +124,7 @@ Proof. vm_compute. reflexivity. Qed.
 (* the hypotheses of C20_holds are satisfiable by a run that is not serial *)
 Example holds_hyps_sat : C20.wf witness0 = true /\ C20.kf witness0 = 0%N /\
   serial_picks (tr_picks (C20.o_trace (C20.model witness0))) = false /\
-  length (C20.o_calls_a (C20.model witness0)) = 4%nat /\ length (C20.o_calls_b (C20.model witness0)) = 6%nat.
+  length (C20.o_calls_a (C20.model witness0)) = 4%nat /\ length (C20.o_calls_b (C20.model witness0)) = 7%nat.
 Proof. vm_compute. auto 6. Qed.
 
 (* the hypotheses of the mount/mount theorem on the codes of witness0 *)
@@ -149,7 +149,7 @@ Proof. vm_compute. reflexivity. Qed.
 Definition witness_serial : C20.case := w_case (CMount (bs "l2")) (CUmount (bs "l2") false) [] [].
 Example serial_hyps_sat :
   serial_picks (tr_picks (run_trace (run_of witness_serial))) = true /\
-  length (C20.o_calls_a (C20.model witness_serial)) = 8%nat /\
+  length (C20.o_calls_a (C20.model witness_serial)) = 9%nat /\
   length (C20.o_calls_b (C20.model witness_serial)) = 4%nat /\
   C20.kf witness_serial = 0%N.
 Proof. vm_compute. auto. Qed.
